@@ -56,8 +56,10 @@ class BAMOnlineMerger:
         self.start = start
         self.end = end
         # fetch uses 0-based semi-closed interval
+        # a file whose header does not list the contig (e.g. one BAM file per chromosome) has no records on it
         self.alignment_iterators = [self._aligned_only(bp[0].fetch(self.chr_id, self.start, self.end + 1,
                                                                    multiple_iterators=self.multiple_iterators))
+                                    if bp[0].get_tid(self.chr_id) >= 0 else iter(())
                                     for bp in self.bam_pairs]
         self.current_elements = PriorityQueue(len(self.alignment_iterators))
         for i, it in enumerate(self.alignment_iterators):
@@ -245,8 +247,9 @@ class AlignmentCollector:
         self.chr_record = chr_record
         self.illumina_bam = illumina_bam
 
-        self.bam_merger = BAMOnlineMerger(self.bam_pairs, self.chr_id, 0,
-                                          self.bam_pairs[0][0].get_reference_length(self.chr_id),
+        contig_lengths = [bp[0].get_reference_length(self.chr_id) for bp in self.bam_pairs
+                          if bp[0].get_tid(self.chr_id) >= 0]
+        self.bam_merger = BAMOnlineMerger(self.bam_pairs, self.chr_id, 0, max(contig_lengths) if contig_lengths else 0,
                                           multiple_iterators=not self.params.high_memory)
         self.strand_detector = StrandDetector(self.chr_record)
         self.read_groupper = read_groupper
